@@ -152,6 +152,7 @@ fn quiet_panics() {
     // keep stderr readable unless asked otherwise
     if std::env::var("KMSIM_PANIC_TRACE").is_err() {
         std::panic::set_hook(Box::new(|_| {}));
+        verif_rt::sched::QUIET_PANICS.store(true, std::sync::atomic::Ordering::Relaxed);
     }
 }
 
